@@ -6,11 +6,12 @@ cd /repo || exit 9
 if ! git diff --quiet; then echo "repo dirty"; exit 9; fi
 git apply "$patch" || { echo "patch does not apply"; exit 9; }
 cd /verif
+rm -rf /tmp/evid_backup && cp -r /verif/evidence /tmp/evid_backup
 VERIF_ONLY="$only" timeout 3000 ./bin/gosmt check "$prop" > /tmp/mutant_run.log 2>&1
 rc=$?
 git -C /repo checkout -- .
 echo "exit=$rc"
 grep -E "^VIOLATION|^BROKEN|OK:|KNOWN-FINDING" /tmp/mutant_run.log | cut -c1-220 | head -8
 # restore evidence written by the mutant run
-git -C /verif checkout -- evidence 2>/dev/null
+rm -rf /verif/evidence && cp -r /tmp/evid_backup /verif/evidence
 exit 0
